@@ -161,7 +161,7 @@ pub fn def() -> PropDef {
             name: "transforms",
             rule: "see property rule",
             strategy,
-            cases: (30_000, 2_000_000),
+            cases: (300_000, 4_000_000),
             exhaustive: Some(enumerate),
             exhaustive_note: "all functions, all (i,j), n<=3 (quick) / n<=4 (thorough), both families",
             run,
